@@ -22,11 +22,11 @@ META = {
              "sample values; distinct = (alphabet, multiset, order, v)."),
     "assumptions": ["integer counting with numpy comparisons is the reference", "samples are finite (no NaN): the property's domain"],
     "deciding": ["stats.greater_equal_ecdf", "stats.less_equal_ecdf"],
-    "exhaustive_tiers": {"quick": {"multisets size<=7 over 6 letters": 1715, "value alphabets": 7, "orders": 3, "queries": "13 (+3 integer-typed queries for the real alphabets)"},
-                         "thorough": {"multisets size<=7 over 6 letters": 1715, "value alphabets": 7, "orders": 3, "queries": "13 (+3 integer-typed queries for the real alphabets)"}},
+    "exhaustive_tiers": {"quick": {"multisets size<=7 over 6 letters": 1715, "value alphabets": 8, "orders": 3, "queries": "13 (+3 integer-typed queries for the real alphabets)"},
+                         "thorough": {"multisets size<=7 over 6 letters": 1715, "value alphabets": 8, "orders": 3, "queries": "13 (+3 integer-typed queries for the real alphabets)"}},
 }
 
-META["added"] = 'Added: unsigned and narrow integer dtypes, a preallocated sample buffer queried, refilled in place and queried again, non-numeric results scored as violations (not monitor errors). int64 values beyond 2**53 with integer queries. integer-typed queries on real-valued samples. ecdf() results edited in place; infinite sample values.'
+META["added"] = 'Added: an eighth alphabet stored in single precision with double-precision queries closer to a sample value than the float32 spacing (counted exactly in double precision), queries of -inf / +inf (only NaN is outside the domain). unsigned and narrow integer dtypes, a preallocated sample buffer queried, refilled in place and queried again, non-numeric results scored as violations (not monitor errors). int64 values beyond 2**53 with integer queries. integer-typed queries on real-valued samples. ecdf() results edited in place; infinite sample values.'
 MANIFEST = {
     "technique": "runtime post-conditions on the real ecdf functions (all call sites) vs integer counting; exhaustive small multisets + random heavy-tie samples",
     "level_text": "All 1715 multisets of size<=7 over 6 letters x 4 value alphabets x 3 orders x 13 query positions are enumerated completely (exhaustive for that sub-space) through the real functions under an exact counting oracle, plus 10^3 (quick) / 10^5 (thorough) random large samples; sum and monotonicity identities checked per sample.",
@@ -50,9 +50,11 @@ ALPHABETS = {
     # infinite values are ordinary members of a sample (a pseudo-likelihood is -inf when an event lies in a zero-rate cell); only NaN is excluded
     "inf": [float("-inf"), -12.5, -7.0, -3.25, 0.0, float("inf")],
     "bigint": [2 ** 53, 2 ** 53 + 1, 2 ** 53 + 3, 2 ** 53 + 4, 2 ** 53 + 6, 2 ** 53 + 7],
+    # a single-precision sample (values exact in float32); double-precision queries then also fall within one float32 spacing of a sample value
+    "real32": [-2.5, 0.0, 0.125, 1.5, 2.25, 3.125],
 }
 BIG_GAPS = [2 ** 53 + 2, 2 ** 53 + 5, 2 ** 53 + 2, 2 ** 53 + 5, 2 ** 53 + 2]
-DTYPES = {"inf": ["float64"], "bigint": ["int64"], "int": ["int64", "int32"], "uint": ["uint64", "uint8", "uint32"], "real": ["float64", "float32x"], "neg": ["float64"], "mixed": ["float64"]}
+DTYPES = {"inf": ["float64"], "bigint": ["int64"], "int": ["int64", "int32"], "uint": ["uint64", "uint8", "uint32"], "real": ["float64", "float32x"], "real32": ["float32"], "neg": ["float64"], "mixed": ["float64"]}
 
 
 def _stats():
@@ -63,6 +65,11 @@ def _stats():
 def _ref(x, v):
     x = numpy.asarray(x)
     n = x.shape[0]
+    if x.dtype.kind == "f" and x.dtype.itemsize < 8:
+        # numpy would round a Python float to the sample's precision before comparing; in double precision every float32 value is exact
+        x = x.astype(numpy.float64)
+        if isinstance(v, float):
+            v = numpy.float64(v)
     return int(numpy.sum(x >= v)) / float(n), int(numpy.sum(x <= v)) / float(n), int(numpy.sum(x == v))
 
 
@@ -91,7 +98,7 @@ def install(ctx):
             a = dict(zip(("x", "val", "cdf"), args))
             a.update(kwargs)
             x, v, cdf = a["x"], a["val"], a.get("cdf", ())
-            if not _valid_sample(x) or not numpy.isscalar(v) and numpy.ndim(v) != 0 or not numpy.isfinite(float(v)):
+            if not _valid_sample(x) or not numpy.isscalar(v) and numpy.ndim(v) != 0 or numpy.isnan(float(v)):
                 ctx.add("ecdf_out_of_domain_calls")
                 return
             if cdf:
@@ -119,7 +126,7 @@ def install(ctx):
         a = dict(zip(("sim_counts", "obs_count"), args))
         a.update(kwargs)
         x, v = a["sim_counts"], a["obs_count"]
-        if not _valid_sample(x) or numpy.ndim(v) != 0 or not numpy.isfinite(float(v)):
+        if not _valid_sample(x) or numpy.ndim(v) != 0 or numpy.isnan(float(v)):
             ctx.add("get_quantiles_out_of_domain_calls")
             return
         ge, le, eq = _ref(x, v)
@@ -144,7 +151,7 @@ def install(ctx):
             return
         vals_a = numpy.asarray(vals)                     # in their own dtype: integer queries beyond 2**53 must not pass through floats
         xs = numpy.asarray(x)
-        ref = numpy.array([numpy.sum(xs <= v) / float(xs.shape[0]) for v in vals_a.tolist()])
+        ref = numpy.array([_ref(xs, v)[1] for v in vals_a.tolist()])
         case = {"exec": "binned", "args": {"x": xs[:2000], "vals": vals_a}}
         if exc is not None:
             ctx.violate("binned_ecdf-raised", case, observed=repr(exc), tags={"caller": caller})
@@ -186,7 +193,7 @@ def sample_identities(ctx, x, queries, label):
     ctx.mon("identity:sum+monotone", 1)
     n = float(xs.shape[0])
     for i, q in enumerate(qs):
-        eq = float(numpy.sum(xs == q))
+        eq = float(_ref(xs, q)[2])
         if abs((ge[i] + le[i]) - (1.0 + eq / n)) > 1e-12:
             ctx.violate("sum-identity", {"exec": "query", "args": {"fn": "gq", "x": xs[:2000], "v": q, "xdtype": str(xs.dtype)}},
                         observed=(ge[i], le[i]), expected=1.0 + eq / n, tags={"fn": "identity"})
@@ -212,6 +219,10 @@ def run(ctx):
                 queries = list(alpha) + [(alpha[i] + alpha[i + 1]) / 2.0 for i in range(5)] + [alpha[0] - 1.0, alpha[-1] + 1.0]
                 if aname == "mixed":
                     queries[-2:] = [-2e9, 2e9]
+                if aname == "real32":
+                    # double-precision neighbours of the extremes and of one inner value: closer to them than the float32 spacing, yet different
+                    queries = queries + [float(numpy.nextafter(alpha[-1], 9.0)), float(numpy.nextafter(alpha[0], -9.0)),
+                                         float(numpy.nextafter(alpha[3], 9.0)), float(numpy.nextafter(alpha[3], -9.0)), alpha[-1] + 1e-9, alpha[0] - 1e-9]
                 if aname == "bigint":
                     queries = list(alpha) + BIG_GAPS + [alpha[0] - 1, alpha[-1] + 1]          # integer queries only
                 if aname in ("real", "neg", "mixed"):
